@@ -554,12 +554,13 @@ func kindHier3(c *hlib.Ctx) {
 		m, label = closed3simple(c)
 		polyRoots = nil
 	}
-	hier3Case(c, m, label, polyRoots)
+	hier3Case(c, m, label, polyRoots, randomXform3(c))
 }
 
-// hier3Case runs MeshToHierarchy on m (faces shuffled, whole components re-oriented at random)
-// and prints nodes, parents, FullMesh and Contains on query points.
-func hier3Case(c *hlib.Ctx, m *model3d.Mesh, label string, polyRoots []*pnode) {
+// hier3Case runs MeshToHierarchy on the image of m under xf (faces shuffled, whole components
+// re-oriented at random) and prints nodes, parents, FullMesh and Contains on query points (drawn
+// in the frame of m, then mapped by xf).
+func hier3Case(c *hlib.Ctx, m *model3d.Mesh, label string, polyRoots []*pnode, xf xform) {
 	s := soupOfMesh(c, m)
 	// random orientation of whole components (the hierarchy must not depend on it)
 	if c.Rng.Intn(2) == 0 {
@@ -571,9 +572,8 @@ func hier3Case(c *hlib.Ctx, m *model3d.Mesh, label string, polyRoots []*pnode) {
 			}
 		}
 	}
-	b := s.build()
 	// query points off the 1/16 grid
-	mn, mx := b.m.Min(), b.m.Max()
+	mn, mx := m.Min(), m.Max()
 	var qs []model3d.Coord3D
 	nq := 6 + c.Rng.Intn(10)
 	if len(s.faces) == 0 {
@@ -592,6 +592,17 @@ func hier3Case(c *hlib.Ctx, m *model3d.Mesh, label string, polyRoots []*pnode) {
 		}
 		qs = append(qs, model3d.XYZ(r(mn.X, mx.X, 0.37), r(mn.Y, mx.Y, 0.21), r(mn.Z, mx.Z, 0.13)))
 	}
+	if !xf.isIdentity() {
+		for i := range s.coords {
+			s.coords[i] = xf.apply3(s.coords[i])
+		}
+		for i := range qs {
+			qs[i] = xf.apply3(qs[i])
+		}
+	}
+	c.Stat("hier3-xform:"+xf.name, 1)
+	b := s.build()
+	sweepStats3(c, s)
 	var out string
 	st := watchdog(func() {
 		roots := model3d.MeshToHierarchy(b.m)
